@@ -107,7 +107,9 @@ class Layout:
 def describe(args):
     """render a concrete t_layout parameter vector as .pyxis text (for replay files and reports)"""
     args = [int(x) for x in args]
-    def s64(v): return v - (1 << 64) if v >> 63 else v
+    def s64(v):
+        v &= (1 << 64) - 1
+        return v - (1 << 64) if v >> 63 else v
     ps, n = args[0], args[1]
     out = []
     attrs = []
